@@ -452,3 +452,53 @@ def rule_gact(ctx):
     res.notes.append("positive control (synthetic grammar): %d patterns reported" % len(hits))
     res.require_floor(80)
     return res
+
+
+def rule_span(ctx):
+    """R-SPAN: diagnostic labels end on character boundaries"""
+    from ..mir import Flow, op_root
+    fx = ctx.fx
+    res = RuleResult("R-SPAN", "the source spans of diagnostics (miette::SourceSpan values built in the front end and the driver) are given by the "
+                     "lexer's token boundaries or are empty: a span whose length is a non-zero constant number of bytes can end inside a multi-byte "
+                     "character of the user's text, and miette's renderer panics when it slices the source line there - an invalid input then "
+                     "crashes the compiler instead of producing the diagnostic")
+    n = 0
+    for k, f in sorted(fx.fns.items()):
+        if f["crate"] not in ("fun", "driver", "scc") or "{promoted" in k:
+            continue
+        if k.startswith("fun::parser::fun::__") and "__action" not in k:
+            continue
+        fn = None
+        for bi, b in enumerate(f["blocks"]):
+            t = b["term"]
+            if t["k"] != "call" or not t.get("dest") or t["dest"]["p"]:
+                continue
+            dty = f["locals"][t["dest"]["l"]]["ty"]
+            if "SourceSpan" not in dty or "Option" in dty or "Result" in dty:
+                continue
+            nm = t.get("callee_name")
+            c = t.get("callee") or ""
+            length = None
+            fn = fn or Fn(f)
+            if nm in ("into", "from") and t["args"]:
+                flow = Flow(fn)
+                r = op_root(t["args"][0])
+                for o in (flow.origins(r, ()) if r is not None else ()):
+                    if o[0] == "agg":
+                        rv = flow.agg_at(o)
+                        if rv.get("agg") == "tuple" and len(rv["ops"]) == 2:
+                            length = rv["ops"][1]
+            elif nm == "new" and "SourceSpan" in (t.get("callee_self") or c) and len(t["args"]) == 2:
+                length = t["args"][1]
+            if length is None:
+                continue
+            n += 1
+            ikey = "%s@span#%d" % (k, bi)
+            if length.get("k") == "const" and isinstance(length.get("val"), int) and length["val"] != 0:
+                res.inst(ikey, t["sp"]["file"], t["sp"]["line"], "violation")
+                res.violate(ikey, "a diagnostic span is built with the constant length %d (bytes): when the text at that position is a multi-byte character the "
+                            "span ends inside it and rendering the diagnostic panics" % length["val"], t["sp"]["file"], t["sp"]["line"])
+            else:
+                res.inst(ikey, t["sp"]["file"], t["sp"]["line"], "ok", "length from token boundaries" if length.get("k") != "const" else "empty span")
+    res.notes.append("span constructions examined: %d" % n)
+    return res
